@@ -234,6 +234,10 @@ def build(expr: dict, log: typing.Optional[str] = None):
             return klass['Handmade'](symbolic.builder(a['name'], a['stateful'], 1, log))
         operator = None
         if a and t and a['name'] == t['name']:
+            if expr['id'] % 2 and not l:  # hyper-parameters given to the operator instance instead of the decorator
+                decorated = wrap.Operator.train(wrap.Operator.apply(actor(a))) if expr['style'] == 'chained' else \
+                    wrap.Operator.mapper(actor(a))
+                return decorated(name=a['name'], log=log)
             if expr['style'] == 'chained':
                 operator = wrap.Operator.train(wrap.Operator.apply(actor(a), name=a['name'], log=log))
             else:
